@@ -711,7 +711,7 @@ def fam_handles(cfg, tier, rng):
     L = 3 if tier == "quick" else 4
     out = []
     other_len = max_len(cfg, 2)
-    reads = list(range(0, 13))
+    reads = list(range(0, 15))
     writes = list(range(0, 15))
     for n in range(0, max_len(cfg, L) + 1):
         pre = prefix(cfg, [n, other_len])
